@@ -128,8 +128,6 @@ fn check_prog(p: &Prog, seed: u64, tier: Tier, st: &mut Stats) -> Option<(String
 fn check_prog_(p: &Prog, seed: u64, tier: Tier, st: &mut Stats, dual_normals: bool) -> Option<(String, String, Value)> {
     let mut rng = Rng::new(seed);
     let rng = &mut rng;
-    let b = p.build();
-    let root = built_root(p, &b);
     let max_side = tier.pick(44, 64);
     let w = 1 + rng.below(max_side) as u32;
     let h = if rng.chance(0.25) { w } else { 1 + rng.below(max_side) as u32 };
@@ -147,8 +145,16 @@ fn check_prog_(p: &Prog, seed: u64, tier: Tier, st: &mut Stats, dual_normals: bo
         jit: rng.chance(0.5),
         pool: if rng.chance(0.5) { None } else { Some(rng.below(POOL_SIZES.len())) },
     };
+    check_with_setup(p, &su, rng, st, dual_normals)
+}
+
+fn check_with_setup(p: &Prog, su: &Setup, rng: &mut Rng, st: &mut Stats, dual_normals: bool) -> Option<(String, String, Value)> {
+    let b = p.build();
+    let root = built_root(p, &b);
+    let (w, h, d) = (su.w, su.h, su.d);
     let setup_json = json!({"width": w, "height": h, "depth": d, "tile_sizes": su.tiles, "world_to_model": format!("{:?}", su.mat),
-        "backend": if su.jit { "jit" } else { "vm" }, "threads": su.pool.map(|i| POOL_SIZES[i % POOL_SIZES.len()])});
+        "backend": if su.jit { "jit" } else { "vm" }, "threads": su.pool.map(|i| POOL_SIZES[i % POOL_SIZES.len()]),
+        "normal_reference": if dual_normals { "f64_dual" } else { "backend_gradient" }});
     DECISIONS.with(|dd| *dd.borrow_mut() = [0; 5]);
     let r = guarded(|| if su.jit { run_render::<JitFunction>(&b.ctx, root, &su) } else { run_render::<VmFunction>(&b.ctx, root, &su) });
     let img = match r {
@@ -396,6 +402,33 @@ impl Prop for C07 {
             }
             st.violation(case, sig, msg, json!({"detail": detail, "shape": p.to_json(), "check_seed": seed.to_string()}));
         }
+    }
+    fn replay_detail(&self, replay: &Value, st: &mut Stats) -> bool {
+        let d = &replay["detail"];
+        let setup = if d["detail"]["setup"].is_object() { &d["detail"]["setup"] } else { &d["detail"] };
+        let Some(p) = Prog::from_json(&d["shape"]) else { return false };
+        let Some(mat) = setup["world_to_model"].as_str().and_then(crate::props::c08::parse_mat4) else { return false };
+        let (Some(w), Some(h), Some(dd), Some(tiles)) = (setup["width"].as_u64(), setup["height"].as_u64(), setup["depth"].as_u64(), setup["tile_sizes"].as_array()) else { return false };
+        let su = Setup {
+            w: w as u32,
+            h: h as u32,
+            d: dd as u32,
+            tiles: tiles.iter().filter_map(|t| t.as_u64().map(|t| t as usize)).collect(),
+            mat,
+            jit: setup["backend"].as_str() == Some("jit"),
+            pool: setup["threads"].as_u64().and_then(|t| POOL_SIZES.iter().position(|s| *s as u64 == t)),
+        };
+        let dual = setup["normal_reference"].as_str() != Some("backend_gradient");
+        install_decision_hook();
+        let seed = d["check_seed"].as_str().and_then(|s| s.parse::<u64>().ok()).unwrap_or(1);
+        for k in 0..4 {
+            let mut rng = Rng::new(seed ^ k);
+            if let Some((sig, msg, detail)) = check_with_setup(&p, &su, &mut rng, st, dual) {
+                st.violation(replay["case"].as_u64().unwrap_or(0), sig, msg, json!({"detail": detail, "shape": p.to_json()}));
+                break;
+            }
+        }
+        true
     }
     fn extra_stage(&self, st: &mut Stats, tier: Tier, seed: u64) {
         // the unchecked index of the voxel renderer, interpreted by Miri
